@@ -276,6 +276,19 @@ def C07(tr):
             out.append(V('C07', 'too_many_deposits', f"{name}: {len(deps)} deposits for a duration of {dur} steps"))
         if ended and len(deps) != dur:
             out.append(V('C07', 'deposit_count', f"{name}: {len(deps)} deposits for a duration of {dur} steps"))
+    # "exactly that amount is freed when its workflow completes": not before every task of the workflow has finished
+    view = workflow_view(tr)
+    for name, rec in tr.obs.items():
+        if rec['freed_at'] is None:
+            continue
+        nodes = view.get(name, {})
+        for n in so[name]['wf']['nodes']:
+            r_ = nodes.get(n['id'])
+            ends = [a['end'] for a in (r_['allocs'] if r_ else []) if a['end'] is not None]
+            if not ends or min(ends) > rec['freed_at'] + EPS:
+                out.append(V('C07', 'freed_before_workflow_done', f"{name}: data freed at {rec['freed_at']} but workflow node {n['id']} "
+                             f"{'finished at ' + str(min(ends)) if ends else 'had not finished'}"))
+                break
     if tr.status == 'completed' and not getattr(tr, 'partial', False):
         hot, cold = tr.sim.buffer.hot[0], tr.sim.buffer.cold[0]
         if hot.current_capacity != hot.total_capacity or cold.current_capacity != cold.total_capacity:
